@@ -84,6 +84,17 @@ Definition Zhoi (X : tensor Z) (tape : list zmat) (budget : nat) : tensor Z -> l
   partial_tucker_model (X := unit) (fun _ _ => tt) (fun it index _ s => nth (it * length (ptf s) + index) tape [])
     (fun _ modes s => ZmmdT X (ptf s) modes) (fun _ _ => tt) (fun _ _ => false) (fun _ _ _ => tt) budget.
 
+(* a run interrupted in mid-sweep: iteration `it`, the sweep about to write mode `cur`.  Model: interrupted_state after `it` complete iterations
+   and the updates of the modes in front of `cur` in the update list; observed: the modes whose factor differs from the start state *)
+Fixpoint prefix_before (cur : nat) (l : list nat) : list nat :=
+  match l with [] => [] | x :: r => if Nat.eqb x cur then [] else x :: prefix_before cur r end.
+Definition interrupted_touched (a : algo) (n : nat) (fixed : list nat) (it cur : nat) : list nat :=
+  let ml := modes_list a n fixed in
+  let s := interrupted_state trace_upd (fun _ _ => false) (fun s => s) (fun _ m s => nth m (facs s) []) (fun _ => false)
+             (fun _ _ => tt) (fun _ => false) (fun _ _ _ => false) (fun _ _ l c => c) (fun _ _ l c => c) (fun _ _ _ => tt)
+             a (fun i => negb (memb i (eff_fixed a n fixed))) ml it it (prefix_before cur ml) (mkst tt (repeat [] n) tt) in
+  filter (fun j => negb (Nat.eqb (length (nth j (facs s) [])) 0)) (seq 0 n).
+
 Inductive case :=
 (* initialiser: rank, weights (None = no weights), factors | implementation: factors returned by the initialiser,
    dense tensor of the zero-budget result of the named algorithm *)
@@ -136,7 +147,9 @@ Inductive case :=
 (* tucker(X, rank, init=(core, fs), fixed_factors=fixed, n_iter_max=budget, tol=0) with svd_interface on tape: the whole function around the
    modelled partial_tucker *)
 | CTuckerHoi (id : nat) (X : tensor Z) (tape : list zmat) (budget : nat) (core : tensor Z) (fs : list zmat) (fixed : list nat)
-             (out : res (tensor Z * list zmat)).
+             (out : res (tensor Z * list zmat))
+(* a driver interrupted inside iteration `it`, in front of the write of mode `cur`: modes whose factor differed from the start state *)
+| CInterrupt (id : nat) (a : algo) (n : nat) (fixedz : list Z) (it cur : nat) (observed : list nat).
 
 Definition agree (c : case) : bool :=
   match c with
@@ -178,6 +191,14 @@ Definition agree (c : case) : bool :=
   | CGate _ c req observed => res_eqb Bool.eqb (tucker_gate c req) observed
   | CHoi _ X tape budget c modes free out =>
       let r := Zhoi X tape budget c modes free in zt_eqb (fst r) (fst out) && zmats_eqb (snd r) (snd out)
+  | CInterrupt _ a n fixedz it cur observed =>
+      match request a n fixedz with
+      | Ok fixed =>
+          let t := interrupted_touched a n fixed it cur in
+          memb cur (modes_list a n fixed) && forallb (fun j => memb j t) observed
+          && (negb (Nat.eqb it 0) || nat_list_eqb t observed)
+      | Err => false
+      end
   | CTuckerHoi _ X tape budget core fs fixed out =>
       res_eqb (fun x y => zt_eqb (fst x) (fst y) && zmats_eqb (snd x) (snd y))
               (tucker_fixed 0%Z Z.add Z.mul core fs fixed (Zhoi X tape budget)) out
@@ -192,6 +213,6 @@ Definition ident (c : case) : nat :=
   | CInit i _ _ _ _ _ | CDense i _ _ _ _ | CTrace i _ _ _ _ _ _ _ _ _ _ | CTuckerTape i _ _ _ _ _ _ _ _ _ | CTuckerLists i _ _ _
   | CTuckerZero i _ _ _ _ | CTuckerDense i _ _ _ | CP2Dense i _ _ _ _ _ _ _ _ | CNtdInit i _ _ _ _
   | CP2Init i _ _ _ _ _ _ _ _ | CHalsInit i _ _ _ _ _ _ _ | CP2Start i _ _ _ _ _ _ _ | CTraceZ i _ _ _ _ _ _ _ _ | CP2StartK i _ _ _ _ _ _ _ | CGate i _ _ _
-  | CHoi i _ _ _ _ _ _ _ | CTuckerHoi i _ _ _ _ _ _ _ => i
+  | CHoi i _ _ _ _ _ _ _ | CTuckerHoi i _ _ _ _ _ _ _ | CInterrupt i _ _ _ _ _ _ => i
   end.
 Definition failing := failing_ids agree ident.
